@@ -516,3 +516,40 @@ pub fn check_output_updater(w: &mut World, psbt: &Psbt, o: usize, di: usize) {
     }
     w.stats.probe("i7_output_checked");
 }
+
+/// BIP174's rule for finalizers, judged by the harness: every ECDSA partial signature carries the
+/// sighash type the input announces (SIGHASH_ALL when it announces none), that type is a standard
+/// one, and taproot inputs carry no ECDSA signatures (their field is a taproot type, not an ECDSA one).
+pub fn sigs_follow_announced_sighash(w: &World, psbt: &Psbt) -> bool {
+    use crate::gen::OutKind;
+    for (i, inp) in psbt.inputs.iter().enumerate() {
+        let taproot = match w.env.inputs.get(i) {
+            Some(ic) => matches!(ic.kind, OutKind::TrKey | OutKind::TrScript),
+            None => return false,
+        };
+        if taproot {
+            if !inp.partial_sigs.is_empty() {
+                return false;
+            }
+            if let Some(t) = inp.sighash_type {
+                if t.taproot_hash_ty().is_err() {
+                    return false;
+                }
+            }
+            continue;
+        }
+        let target = match inp.sighash_type {
+            Some(t) => match t.ecdsa_hash_ty() {
+                Ok(t) => t,
+                Err(_) => return false,
+            },
+            None => bitcoin::EcdsaSighashType::All,
+        };
+        for sig in inp.partial_sigs.values() {
+            if sig.sighash_type != target {
+                return false;
+            }
+        }
+    }
+    true
+}
